@@ -7,6 +7,13 @@
         predicates for the characters of this input, as computed by the real
         functions on the Rust side; characters not listed have flags 0
       → `done kind,start,end;kind,start,end;…` | `panic` | `hang` | `bad-utf8`
+    c06 parse <hex utf-8 source | -> <table | -> <lits | ->
+        the Lean PARSER model (`Model/Parse.lean`) on the source. lits = literal
+        verdicts `L:<start>:<stop>:-` (decodes) / `L:<start>:<stop>:<Kind>:<a>:<b>`
+        (the decoder's error: kind, absolute location), `F:…` for f-string text parts
+      → `ok <sexp> | <spans>` | `err <Kind> <start> <end> <hint> | <spans>`
+        | `need L|F <start> <stop>` (no verdict in the table for this literal)
+        | `panic` | `fuel` | `bad-utf8`
     c06 crange <hex source | -> <start> <end>
       → `ok <a> <b>` | `panic`
     c06 cycle <old|fixed> <defs> <order: i,j,… | ->
@@ -18,6 +25,7 @@
 -/
 import RotoV.Model.Lexer
 import RotoV.Model.TypeCycle
+import RotoV.Model.Parse
 import Driver.Util
 
 namespace Driver.C06
@@ -60,10 +68,83 @@ def decode (hex : String) : Option (List Char) :=
 def showToks (ts : List OutTok) : String :=
   ";".intercalate (ts.map fun t => s!"{t.kind.name},{t.start},{t.stop}")
 
+/-! parser requests -/
+open RotoV.Parse in
+def kindOfName : String → Option EKind
+  | "EndOfInput" => some .endOfInput
+  | "FailedToParseEntireInput" => some .failedToParseEntireInput
+  | "InvalidToken" => some .invalidToken
+  | "Expected" => some .expected
+  | "InvalidLiteral" => some .invalidLiteral
+  | "Custom" => some .custom
+  | _ => none
+
+open RotoV.Parse in
+def kindName' : EKind → String
+  | .endOfInput => "EndOfInput"
+  | .failedToParseEntireInput => "FailedToParseEntireInput"
+  | .invalidToken => "InvalidToken"
+  | .expected => "Expected"
+  | .invalidLiteral => "InvalidLiteral"
+  | .custom => "Custom"
+  | .needLit _ => "NeedLit"
+
+/-- one literal verdict: (is f-string part, start, stop, error) -/
+abbrev LitEntry := Bool × Nat × Nat × Option (RotoV.Parse.EKind × RotoV.Lex.Span)
+
+def parseLits (s : String) : Option (List LitEntry) :=
+  if s = "-" then some [] else
+  (s.splitOn ",").foldr (fun e acc =>
+    match acc with
+    | none => none
+    | some l =>
+      let cls? : Option (Bool × List String) := match e.splitOn ":" with
+        | "L" :: r => some (false, r)
+        | "F" :: r => some (true, r)
+        | _ => none
+      match cls? with
+      | none => none
+      | some (f, [a, b, "-"]) =>
+        match a.toNat?, b.toNat? with
+        | some a, some b => some ((f, a, b, none) :: l)
+        | _, _ => none
+      | some (f, [a, b, k, x, y]) =>
+        match a.toNat?, b.toNat?, kindOfName k, x.toNat?, y.toNat? with
+        | some a, some b, some k, some x, some y => some ((f, a, b, some (k, (x, y))) :: l)
+        | _, _, _, _, _ => none
+      | _ => none) (some [])
+
+/-- the literal oracle of one request: no entry = "need this verdict" -/
+def litOracle (tbl : List LitEntry) (f : Bool) (a b : Nat) : Option (RotoV.Parse.EKind × RotoV.Lex.Span) :=
+  match tbl.find? (fun e => e.1 == f && e.2.1 == a && e.2.2.1 == b) with
+  | some e => e.2.2.2
+  | none => some (.needLit f, (a, b))
+
+open RotoV.Parse in
+partial def showSx : Sx → String
+  | .a s => s
+  | .n tag [] => "(" ++ tag ++ ")"
+  | .n tag kids => "(" ++ tag ++ " " ++ " ".intercalate (kids.map showSx) ++ ")"
+
+def showSpans (l : List RotoV.Lex.Span) : String :=
+  if l.isEmpty then "-" else ",".intercalate (l.map fun sp => s!"{sp.1}:{sp.2}")
+
+open RotoV.Parse in
+def showOut : Out → String
+  | .tree t sp => "ok " ++ showSx t ++ " | " ++ showSpans sp
+  | .error e sp =>
+    match e.kind with
+    | .needLit f => s!"need {if f then "F" else "L"} {e.span.1} {e.span.2}"
+    | k =>
+      let hint := match e.hint with | some h => s!"{h.1}:{h.2}" | none => "-"
+      s!"err {kindName' k} {e.span.1} {e.span.2} {hint} | " ++ showSpans sp
+  | .panic => "panic"
+  | .fuel => "fuel"
+
 /-! cycle-check requests -/
 open RotoV.TypeCycle in
 mutual
-partial def pTy : List Char → Option (Ty × List Char)
+partial def pTy : List Char → Option (RotoV.TypeCycle.Ty × List Char)
   | 'l' :: r => some (.leaf, r)
   | 'u' :: r => some (.unresolved, r)
   | 'v' :: r =>
@@ -126,6 +207,13 @@ def handle (args : List String) : String :=
       | .hang => "hang"
     | none, _ => "bad-utf8"
     | _, none => "bad-op"
+  | ["parse", hex, tbl, lits] =>
+    match decode hex, parseTable tbl, parseLits lits with
+    | some src, some t, some l =>
+      showOut (RotoV.Parse.parse
+        ⟨src, mkPreds t, litOracle l, RotoV.Gen.ParseFacts.almostKeywords.map String.toList⟩)
+    | none, _, _ => "bad-utf8"
+    | _, _, _ => "bad-op"
   | ["crange", hex, a, b] =>
     match decode hex, a.toNat?, b.toNat? with
     | some src, some a, some b =>
